@@ -32,6 +32,7 @@ FIXED = [
  (["C14", "C05"], "0a5c3c1", "select fields were type-checked after the where clause: a where expression that names a field defined through another field was checked against a field type computed before that inner alias was resolved (valid statement refused / invalid accepted)", "select int(value) as a, a + 1 as b where b > 1"),
  (["C05"], "8abcf29", "with the field cache on, a second select field carrying an already used name was filled with the cached value of the first field of that name", "select key as a, value as a where a != 'x'"),
  (["C09"], "ae03c6f", "min()/max() compared a float with an integer extreme (or an integer with a float extreme) by its truncated value: max over 2, 2.5 returned 2", "select max(value) where true  (values '2', '2.5')"),
+ (["C02"], "b0f088a", "a key BETWEEN with reversed bounds was merged as a range with the other operands: 'key = 'm' or key between 'z' and 'a'' was planned as RANGE[m,a] and lost the pair m, on which the clause is true without the BETWEEN ever being evaluated", "select key where key = 'm' or key between 'z' and 'a'  (store {m})"),
 ]
 KNOWN = []
 def main():
